@@ -145,8 +145,9 @@ var props = map[string]*PropSpec{
 	"C11": {
 		Level:        "exploration",
 		Scens: []ScenSpec{{ID: "C11", QuickRuns: 6000, QuickSecs: 120, ThoroughRuns: 200000, ThoroughSecs: 900},
-			{ID: "C11H", QuickRuns: 300, QuickSecs: 60, ThoroughRuns: 30000, ThoroughSecs: 300}},
-		CoverageRule: "each run = the real TxnPoliciesAccessor (two MapVacuum goroutines, 5 s tick, 30 s retention) fed by the real file loader, and a seeded history of transaction request / response lookups, apply-policies (ReloadFromFile), apply with an HAProxy failure, revert-to-diagnosis-free / revert-to-last-loaded, with clock targets on vacuum ticks and at the retention -5 s / -1 ms / -1 ns / +1 ns / +6 s, single or in concurrent groups interleaved at instrumented lock sites; non-trivial = at least one response was judged inside the retention period; distinct = schedule signatures among non-trivial runs",
+			{ID: "C11H", QuickRuns: 300, QuickSecs: 60, ThoroughRuns: 30000, ThoroughSecs: 300},
+			{ID: "C11L", QuickRuns: 300, QuickSecs: 60, ThoroughRuns: 20000, ThoroughSecs: 300}},
+		CoverageRule: "C11L: lookups, reloads and fail-safe reverts as tasks with simulated blocking (locks taken through the simulator, tasks parked inside critical sections, the vacuum goroutines join in when they meet a held lock): every operation returns, no deadlock, second lookups inside the retention name the first version; C11: each run = the real TxnPoliciesAccessor (two MapVacuum goroutines, 5 s tick, 30 s retention) fed by the real file loader, and a seeded history of transaction request / response lookups, apply-policies (ReloadFromFile), apply with an HAProxy failure, revert-to-diagnosis-free / revert-to-last-loaded, with clock targets on vacuum ticks and at the retention -5 s / -1 ms / -1 ns / +1 ns / +6 s, single or in concurrent groups interleaved at instrumented lock sites; non-trivial = at least one response was judged inside the retention period; distinct = schedule signatures among non-trivial runs",
 		Assumptions: []string{
 			"retention is 30 s from the first lookup of a transaction; responses later than that are not judged",
 			"at most two configuration changes overlap (an admin call and a fail-safe revert run in different goroutines), at most one of them writes the policies file; after overlapping changes every marker they touched is accepted as newest until a change that runs alone installs a version",
